@@ -275,3 +275,65 @@ def check_identity(ctx, P, rule="poly-identity"):
     diff = (tot - want).mod(1 << 128)
     ctx.check(len(limbs) == 5 and not diff and not LP.unknown, rule, "finish", "out == sum(L_j 2^(26 j)) + pad (mod 2^128) as a polynomial identity; %d carry / truncation symbols cancel" % len(LP.qnames),
               "Poly1305::finish does not add the pad to the repacked accumulator modulo 2^128 (an inter-word carry is lost): %d repacked limbs, residue %s%s" % (len(limbs), diff.show()[:200], ("; unrecognised operation %s" % str(LP.unknown[0])[:100]) if LP.unknown else ""), where=fin.where(), key="%s:finish" % rule)
+
+
+def check_input_shapes(ctx, P, rule="shape-eval", maxlen=49):
+    """Poly1305::input for EVERY pending count 0..15 and EVERY input length 0..%d, contents symbolic (bounded shape evaluation
+    with the value-graph evaluator, `block` kept as a recorded opaque call): the blocks handed to `block` are exactly the
+    consecutive 16-byte blocks of (pending bytes ++ input), in order, and what remains (< 16 bytes) is buffered with
+    `leftover` equal to its length.  By the period 16 of the buffering, lengths up to three blocks cover every residue with
+    zero, one and several direct blocks."""
+    import re as _re
+    from .. import simd
+    from .arx import Box
+    T = "poly1305::Poly1305"
+    fn = P.fn("<%s as mac::Mac>::input" % T)
+    adt = P.adts[T]
+    fields = [f["name"] for f in adt["variants"][0]["fields"]]
+    fi = {n: i for i, n in enumerate(fields)}
+    need = ("h", "r", "pad", "leftover", "buffer", "finalized")
+    if any(n not in fi for n in need):
+        ctx.lost(rule, "Poly1305::input", "fields of Poly1305 changed: %s" % fields)
+        return
+    bad = []
+    n = 0
+    for L in range(16):
+        for ln in range(maxlen):
+            B = simd.TermBank()
+            buf = [B.inp("buf[%d]" % i, 8) for i in range(16)]
+            data = [B.inp("d[%d]" % i, 8) for i in range(ln)]
+            st = {fi["h"]: {i: B.inp("h%d" % i, 32) for i in range(5)}, fi["r"]: {i: B.inp("r%d" % i, 32) for i in range(5)}, fi["pad"]: {i: B.inp("p%d" % i, 32) for i in range(4)},
+                  fi["leftover"]: L, fi["buffer"]: {i: buf[i] for i in range(16)}, fi["finalized"]: False}
+            box = Box(st)
+            M = simd.Machine(P, B, 32, {}, maxsteps=200000)
+            blocks = []
+
+            def on_block(m_, f_, c_, a_, blocks=blocks):
+                cont, base, k = m_.seq(a_[1])
+                blocks.append(tuple(m_.scalar_bits(cont[base + i], 8) for i in range(k)))
+                return None
+            M.hooks = [(_re.compile(r"poly1305::Poly1305::block$"), on_block)]
+            dcont = {i: data[i] for i in range(ln)}
+            try:
+                M.call_fn(fn, [box.ref(), ("aslice", dcont, 0, ln)])
+            except (simd.Unsupported, KeyError, IndexError, TypeError, AttributeError, ValueError) as e:
+                bad.append((L, ln, "not evaluable: %s: %s" % (type(e).__name__, str(e)[:80])))
+                break
+            n += 1
+            stream = buf[:L] + data
+            want_blocks = [tuple(stream[16 * j: 16 * j + 16]) for j in range(len(stream) // 16)]
+            rest = stream[16 * (len(stream) // 16):]
+            got_left = box.v[fi["leftover"]]
+            gb = box.v[fi["buffer"]]
+            ok = blocks == want_blocks and got_left == len(rest) and all(M.scalar_bits(gb[i], 8) == rest[i] for i in range(len(rest))) and any(dcont[i] is not data[i] for i in range(ln)) is False
+            if not ok:
+                bad.append((L, ln, "blocks %d (want %d), leftover %s (want %d)" % (len(blocks), len(want_blocks), got_left, len(rest))))
+                if len(bad) > 3:
+                    break
+        if len(bad) > 3:
+            break
+    okall = not bad and n == 16 * maxlen
+    ctx.check(okall, rule, "Poly1305::input", "%d (pending, length) shapes: the blocks processed are the consecutive 16-byte blocks of pending ++ input and the rest is buffered" % n,
+              "Poly1305::input does not process exactly the consecutive 16-byte blocks of (pending ++ input) and buffer the rest: (pending, length, what) %s" % bad[:3], where=fn.where(), key="%s:Poly1305::input" % rule)
+    if okall:
+        ctx.subsume("stream:input", "Poly1305::input is decided for every pending count and every length below %d by bounded shape evaluation (shape-eval)" % maxlen)
